@@ -20,7 +20,8 @@ def Label.grpD : Label → Nat
     match r.kind with
     | .observer => 5
     | .orchestrator => 6
-    | .killer | .simple => 7
+    | .killer => 7
+    | .simple => 11
     | _ => 1
   | .rootStopping _ _ => 8
   | .subStopping _ _ => 9
@@ -28,7 +29,7 @@ def Label.grpD : Label → Nat
   | l => l.grp
 
 theorem Label.grpD_cases (l : Label) : l.grpD = 1 ∨ l.grpD = 2 ∨ l.grpD = 3 ∨ l.grpD = 4 ∨ l.grpD = 5 ∨ l.grpD = 6
-    ∨ l.grpD = 7 ∨ l.grpD = 8 ∨ l.grpD = 9 ∨ l.grpD = 10 := by
+    ∨ l.grpD = 7 ∨ l.grpD = 8 ∨ l.grpD = 9 ∨ l.grpD = 10 ∨ l.grpD = 11 := by
   cases l <;> simp [Label.grpD, Label.grp]
   rename_i r how
   cases r <;> simp [Root.kind]
